@@ -51,6 +51,10 @@ pub fn rerun(line: &str) -> Option<String> {
         ["hist", hx, ops] => Some(crate::histops::hist_line(&unhex(hx), &crate::histops::parse(ops)?)),
         ["threads", t, seed, k] => Some(crate::histops::threads_line(t.parse().ok()?, seed.parse().ok()?, k.parse().ok()?)),
         ["file", kind, k, r, size] => Some(crate::faultops::file_line(kind.parse().ok()?, k.parse().ok()?, r, size.parse().ok()?)),
+        ["pixframe", hx, e, m, v, k, ops] => {
+            let o = crate::common::Opts { ecl: optn(e), mode: optn(m), version: optn(v), mask: optn(k) };
+            Some(crate::pixops::pixframe_line(&unhex(hx), o, &crate::svgops::parse(ops)?))
+        }
         ["pix", hx, e, m, v, k, ops, fw, fh] => {
             let o = crate::common::Opts { ecl: optn(e), mode: optn(m), version: optn(v), mask: optn(k) };
             Some(crate::pixops::pix_line(&unhex(hx), o, &crate::svgops::parse(ops)?, fw.parse().ok(), fh.parse().ok()))
